@@ -1384,6 +1384,11 @@ impl Lab {
                 }
             }
         }
+        // A panic of the real fetch is always a violation (both properties): a remote must not be able to
+        // bring the fetch worker down.
+        if let Err(msg) = &result {
+            viol.push(("fetch-panic".into(), format!("the real fetch panicked: {msg}")));
+        }
         if prop == Prop::C01 && before_other != after_other {
             viol.push(("non-namespaced-ref-changed".into(), format!("{before_other:?} -> {after_other:?}")));
         }
